@@ -50,6 +50,12 @@ var UploadURLResponseSchema = arrow.NewSchema([]arrow.Field{
 // generate. Response: an Arrow IPC stream with one batch of (upload_url,
 // download_url, expires_at) rows.
 func (h *HttpServer) handleUploadURLInit(w http.ResponseWriter, r *http.Request) {
+	// Vending pre-signed URLs is as privileged as any RPC call: authenticate
+	// before anything else, exactly like the unary and stream routes.
+	if h.authenticate(w, r) == nil {
+		return
+	}
+
 	if h.uploadURLProvider == nil {
 		http.NotFound(w, r)
 		return
